@@ -170,13 +170,25 @@ func c10cHistoryLaws(e *engine.Engine, ix string, nodes, rels []string, where st
 					return fmt.Sprintf("%s: VGetEdges(%s,%s,%s,@%d)=%v but the stored versions active then are %v", where, ix, n, rel, t, gotOut, wantOut), views
 				}
 				inc, _ := e.VGetIncomingEdges(ix, n, rel, t)
-				var gotIn []string
+				var gotIn, gotInFull []string
 				for _, ed := range inc {
 					gotIn = append(gotIn, ed.TargetID)
+					gotInFull = append(gotInFull, fmt.Sprintf("%s|w=%v|p=%s|c=%d|d=%d", ed.TargetID, ed.Weight, string(ed.Props), ed.CreatedAt, ed.DeletedAt))
 				}
 				sort.Strings(gotIn)
+				sort.Strings(gotInFull)
 				if strings.Join(gotIn, ";") != strings.Join(wantIn, ";") {
 					return fmt.Sprintf("%s: VGetIncomingEdges(%s,%s,%s,@%d) sources=%v but the outgoing versions active then point to it from %v", where, ix, n, rel, t, gotIn, wantIn), views
+				}
+				var wantInFull []string
+				for _, v := range vers {
+					if v.Rel == rel && v.Tgt == gid && vexec.ActiveAt(v.C, v.D, t) {
+						wantInFull = append(wantInFull, fmt.Sprintf("%s|w=%v|p=%s|c=%d|d=%d", vexec.NodeOf(v.Src), v.Weight, v.Props, v.C, v.D))
+					}
+				}
+				sort.Strings(wantInFull)
+				if len(wantInFull) == len(gotInFull) && strings.Join(gotInFull, ";") != strings.Join(wantInFull, ";") {
+					return fmt.Sprintf("%s: VGetIncomingEdges(%s,%s,%s,@%d) shows versions %.300v, the stored versions active then are %.300v", where, ix, n, rel, t, gotInFull, wantInFull), views
 				}
 				if t == 0 {
 					links, _ := e.VGetLinks(ix, n, rel)
